@@ -15,7 +15,7 @@ import re
 import re._parser as sre_parse
 import warnings
 
-from ..absdom import FLAGS, parse_regex, make_operand
+from ..absdom import FLAGS, compiles, parse_regex, make_operand
 from ..consts import fold_str
 from ..interp import FuncRef
 from ..model import AnalysisError, norm_text
@@ -149,11 +149,10 @@ def run(ctx, model):
                         ctx.violation("R-LB-GUARD", file, func, construct,
                                       f"{meth} refuses a fixed-width assertion pattern (exact repetition)", line, inp=inp)
                     if fixed and o.kind == "return" and o.text is not None:
-                        try:
-                            parse_regex(o.text)
-                        except re.error as e:
+                        okc, whyc = compiles(o.text)
+                        if not okc:
                             ctx.violation("R-LB-GUARD", f.relpath, f.short, "<emitted pattern>",
-                                          f"{meth} emits a pattern re rejects", f.node.lineno, inp=inp, detail=f"{o.text!r}: {e}")
+                                          f"{meth} emits a pattern re rejects", f.node.lineno, inp=inp, detail=f"{o.text!r}: {whyc}")
             # Empty precedes the guard
             for e_arg in (("Empty:''", "Empty", "", True),):
                 outs, f = B.call_method_ident(model, meth, r, [e_arg])
